@@ -314,6 +314,10 @@ func (e *bigEnv) fieldPath(fa *ssa.FieldAddr) string {
 		return "global:" + b.Name() + "." + name
 	case *ssa.Field:
 		return e.valuePath(b) + "." + name
+	case *ssa.Alloc:
+		if pt, ok := b.Type().Underlying().(*types.Pointer); ok {
+			return "local(" + shortType(pt.Elem()) + ")." + name
+		}
 	}
 	if n, ok := e.names[fa.X]; ok {
 		return n + "." + name
@@ -391,7 +395,11 @@ func (e *bigEnv) plain(v ssa.Value, at ssa.Instruction) *X {
 		} else if bi, ok := cc.Value.(*ssa.Builtin); ok {
 			xs := make([]*X, len(cc.Args))
 			for i, a := range cc.Args {
-				xs[i] = e.plain(a, where)
+				if isByteSlice(a.Type()) {
+					xs[i] = e.bytesOf(a, where)
+				} else {
+					xs[i] = e.plain(a, where)
+				}
 			}
 			return Op(bi.Name(), xs...)
 		} else {
